@@ -13,6 +13,7 @@ import Hg.Model.Fcn
 import Hg.Model.Np
 import Hg.Model.Access
 import Hg.Model.NpHyp
+import Hg.Model.Frame
 
 namespace Hg.Proto
 open Hg Hg.Wire
@@ -62,6 +63,50 @@ def cellOf? : Json → Option Cell
 
 def datumOf? : Json → Option Datum
   | .arr l => l.mapM cellOf?
+  | _ => none
+
+/-- a bin specification of the dataframe interface: {"k": "sparse", "width", "origin"} … -/
+def axisSpecOf? : Json → Option AxisSpec
+  | .obj m => do
+    let k ← (jget? m "k").bind strOf?
+    match k with
+    | "sparse" => do
+        let w ← (jget? m "width").bind ratOf?
+        let o ← (jget? m "origin").bind ratOf?
+        pure (.sparse w o)
+    | "bin" => do
+        let n ← (jget? m "n").bind natOf?
+        let l ← (jget? m "low").bind ratOf?
+        let h ← (jget? m "high").bind ratOf?
+        pure (.bin n l h)
+    | "irregular" => match jget? m "edges" with | some (.arr l) => (l.mapM ratOf?).map .irregular | _ => none
+    | "central" => match jget? m "centers" with | some (.arr l) => (l.mapM ratOf?).map .central | _ => none
+    | "categorize" => some .categorize
+    | _ => none
+  | _ => none
+
+def binSpecsOf? : Json → Option BinSpecs
+  | .obj m => do
+    let one ← match jget? m "one" with
+      | some (.obj om) => om.mapM (fun kv => (axisSpecOf? kv.2).map (fun s => (kv.1, s)))
+      | _ => none
+    let many ← match jget? m "many" with
+      | some (.obj mm) => mm.mapM (fun kv => match kv.2 with
+          | .arr l => (l.mapM (fun (e : Json) => match e with
+              | Json.null => some (none : Option AxisSpec)
+              | j => (axisSpecOf? j).map some)).map (fun l => (kv.1, l))
+          | _ => none)
+      | _ => none
+    pure ⟨one, many⟩
+  | _ => none
+
+def columnOf? : Json → Option Column
+  | .obj m => do
+    let name ← (jget? m "name").bind strOf?
+    let pos ← (jget? m "pos").bind natOf?
+    let ty ← (jget? m "ty").bind strOf?
+    let ty ← match ty with | "num" => some ColType.num | "time" => some ColType.time | "bool" => some ColType.bool | _ => none
+    pure ⟨name, pos, ty⟩
   | _ => none
 
 /-- Build the freshly constructed (empty) aggregator described by a tree spec: the model of the
@@ -202,6 +247,14 @@ def step (pool : Pool) (cmd : Json) : Pool × Json :=
           | none => (pool, .str "$raise:type")
         | _, _ => (pool, err "bad fillnp")
       | none => (pool, err "bad fillnp")
+    | "$mkhist", [h, mode, bs, feat, .arr rows] =>
+      -- the dataframe interface: histogram of one feature (mode "np": make_histograms, "direct": row by row)
+      match strOf? h, strOf? mode, binSpecsOf? bs, (match feat with | .arr l => l.mapM columnOf? | _ => none), rows.mapM datumOf? with
+      | some h, some mode, some bs, some feature, some rows =>
+        match (if mode = "direct" then directHist bs feature rows else makeHist bs feature rows) with
+        | some a => (pool.set h a, .str "$ok")
+        | none => (pool, .str "$raise:type")
+      | _, _, _, _, _ => (pool, err "bad mkhist")
     | "$view", [h, what, lo, hi] =>
       let optRat (j : Json) : Option (Option Rat) := match j with | .null => some none | .num q => some (some q) | _ => none
       match (strOf? h).bind pool.get?, strOf? what, optRat lo, optRat hi with
